@@ -1134,6 +1134,13 @@ func (t *TxPublisher) handleInitialTxError(r *monitorRecord, err error) {
 
 		result.Event = TxFailed
 
+	// When the fee estimator fails to give us the initial fee rate, the
+	// fee function cannot be created. This is not caused by the inputs, so
+	// we'll send a TxFailed so they can be retried in the next block,
+	// instead of failing them for good.
+	case errors.Is(err, ErrEstimateFeeRate):
+		result.Event = TxFailed
+
 	// When the error is due to budget being used up, we'll send a TxFailed
 	// so these inputs can be retried with a different group in the next
 	// block.
@@ -1947,6 +1954,14 @@ func (t *TxPublisher) calculateRetryFeeRate(
 		if err != nil {
 			log.Errorf("Failed to create fee func for record %v: "+
 				"%v", r.requestID, err)
+
+			// A failing fee estimator says nothing about the
+			// inputs, so we don't fail them. There's no fee rate
+			// to suggest in this case and the next attempt will
+			// ask the estimator again.
+			if errors.Is(err, ErrEstimateFeeRate) {
+				return 0, nil
+			}
 
 			return 0, err
 		}
